@@ -20,6 +20,7 @@ From XV Require Corr.RunC07.
 From XV Require Corr.RunC09.
 From XV Require Corr.RunC14b.
 From XV Require Corr.RunC04.
+From XV Require Corr.RunC11.
 (* REQUIRE-INSERTION-POINT: add "From XV Require Corr.RunCxx." above this line *)
 Open Scope Z_scope.
 
@@ -35,6 +36,7 @@ Definition dispatch (prop : Z) : sx -> sx :=
   if prop =? 14 then RunC14b.run_C14b else
   if prop =? 18 then RunC18.run_C18 else
   if prop =? 4 then RunC04.run_C04 else
+  if prop =? 11 then RunC11.run_C11 else
   if (prop =? 3) || (prop =? 4) || (prop =? 11) then RunSession.run_session else
   if prop =? 8 then RunC08.run_C08 else
   if prop =? 2 then RunC02.run_C02 else
